@@ -227,7 +227,7 @@ def msg_exhaustive(chk, relevant, mask="all", cross_impl=False, spec_relevant=No
 def c01(chk):
     chk.extract(("messageTypes", "timeCodeTypes"))
     chk.proofs(["Midi.Props.C01"])
-    chk.translated(['TShort', 'TStruct'])
+    chk.translated(['TShort', 'TStruct', 'TBits'])
     msg_exhaustive(chk, C01_CELLS, mask="c01")
     chk.assumptions += ["a third-party implementor is any record of three getters + from_bytes_unchecked (model: universally quantified `Factory`); the harness exercises two concrete ones"]
 
@@ -418,7 +418,7 @@ EXPLORE_RULE = ("product exploration: breadth-first over REAL scanner states (ke
 def c07(chk):
     chk.extract(())
     chk.proofs(["Midi.Props.C07"])
-    chk.translated(['TMsg', 'TCC'])
+    chk.translated(['TMsg', 'TCC', 'TBits'])
     exe = chk.cargo_build("std")
     if exe is None:
         return
@@ -446,7 +446,7 @@ def c08(chk):
 def c09(chk):
     chk.extract(("controllerNumbers",))
     chk.proofs(["Midi.Props.C09"])
-    chk.translated(['TMsg'])
+    chk.translated(['TMsg', 'TBits'])
     exe = chk.cargo_build("std")
     if exe is None:
         return
